@@ -24,6 +24,7 @@ CONSTANTS = {
     "numpy.pi": lambda I: _pi(I),
     "numpy.nan": NAN,
     "numpy.inf": Opaque("inf"),
+    "numpy.uint8": Opaque("dtype:uint8"),
     "math.pi": lambda I: _pi(I),
 }
 
@@ -1243,6 +1244,7 @@ def install(I):
     install_sysmods(I)
     install_bytes(I)
     install_numpy_scalars(I)
+    install_numpy2(I)
 
 
 # ================================================================== symbolic-length lists (z3 sequences)
@@ -1430,3 +1432,66 @@ def install_bytes(I):
             return SNumStr(x, "inttxt")
         return old_str(I, x)
     I.builtins["str"] = sx.Builtin("str", b_str)
+
+
+# ================================================================== more numpy reductions (uninterpreted + definitional axioms)
+AVG = z3.Function("avg", z3.ArraySort(z3.IntSort(), z3.RealSort()), z3.IntSort(), z3.RealSort())
+STD = z3.Function("std", z3.ArraySort(z3.IntSort(), z3.RealSort()), z3.IntSort(), z3.RealSort())
+
+
+def _lam_of(arr):
+    n, fn, maskfn = _arr_parts(arr)
+    if maskfn is not None:
+        raise Unsupported("average/std of a compressed array")
+    k = z3.Int("red_k")
+    return z3.Lambda([k], V.rterm(fn(k))), n
+
+
+def install_numpy2(I):
+    L = I.lib
+
+    def np_average(I, a, **k):
+        if isinstance(a, (list, tuple)):
+            a = L["numpy.array"](I, list(a))
+        lam, n = _lam_of(a)
+        # empty slice -> NaN (numpy warns); modelled by the NaN flag
+        return SReal(AVG(lam, n), n <= 0)
+    L["numpy.average"] = np_average
+    L["numpy.mean"] = np_average
+    L["ndarray.mean"] = lambda I, self: np_average(I, self)
+
+    def np_std(I, a, **k):
+        lam, n = _lam_of(a)
+        s = STD(lam, n)
+        I.axiom("std>=0", s >= 0)
+        return SReal(s, n <= 0)
+    L["numpy.std"] = np_std
+
+    def arg_extreme(which):
+        def f(I, a, *args, **k):
+            n, fn, maskfn = _arr_parts(a)
+            if maskfn is not None:
+                raise Unsupported("argmin/argmax of a compressed array")
+            I.safety("arg-of-empty", n > 0, "ValueError")
+            j = z3.Int(fresh(which))
+            i = z3.Int(fresh("i"))
+            better = (lambda x, y: x <= y) if which == "argmin" else (lambda x, y: x >= y)
+            strictly = (lambda x, y: x < y) if which == "argmin" else (lambda x, y: x > y)
+            fj = V.rterm(fn(j))
+            I.axiom(f"def:{which}", z3.And(j >= 0, j < n))
+            I.axiom(f"def:{which}", z3.ForAll([i], z3.Implies(z3.And(i >= 0, i < n), better(fj, V.rterm(fn(i))))))
+            I.axiom(f"def:{which}-first", z3.ForAll([i], z3.Implies(z3.And(i >= 0, i < j), strictly(fj, V.rterm(fn(i))))))
+            return SInt(j)
+        return f
+    L["numpy.argmin"] = arg_extreme("argmin")
+    L["numpy.argmax"] = arg_extreme("argmax")
+    L["ndarray.argmin"] = lambda I, self: L["numpy.argmin"](I, self)
+    L["ndarray.argmax"] = lambda I, self: L["numpy.argmax"](I, self)
+
+    def np_zeros(I, n, dtype=None, **k):
+        kind = "real" if dtype is None else "int"
+        zero = Fraction(0) if kind == "real" else 0
+        return SArray(n if isinstance(n, (int, SInt)) else n, lambda i: zero, kind)
+    L["numpy.zeros"] = np_zeros
+    L["numpy.arange"] = lambda I, n: SArray(n, lambda i: SInt(i), "int")
+    L["numpy.uint8"] = Opaque("dtype")
